@@ -250,7 +250,7 @@ func (e *bigEnv) initial(o ssa.Value, at ssa.Instruction) *X {
 	case *ssa.Alloc:
 		return K(0)
 	case *ssa.Parameter:
-		return L("param:" + x.Name())
+		return L("param:" + pname(x))
 	case *ssa.UnOp:
 		if x.Op == token.MUL {
 			switch a := x.X.(type) {
@@ -302,7 +302,7 @@ func (e *bigEnv) fieldPath(fa *ssa.FieldAddr) string {
 		if n, ok := e.names[b]; ok {
 			return n + "." + name
 		}
-		return "param:" + b.Name() + "." + name
+		return "param:" + pname(b) + "." + name
 	case *ssa.Call:
 		// c.Params().N
 		return strings.TrimPrefix(e.plain(b, nil).String(), "call:") + "." + name
@@ -371,7 +371,7 @@ func (e *bigEnv) valuePath(v ssa.Value) string {
 			return e.fieldPath(fa)
 		}
 	case *ssa.Parameter:
-		return "param:" + x.Name()
+		return "param:" + pname(x)
 	}
 	return fmt.Sprintf("?%T", v)
 }
